@@ -41,7 +41,7 @@ def signature(case, ck, log, fault):
 
 
 def plan(tier, seed):
-    return F.std_plan(tier, seed, 1000, 40000)
+    return F.std_plan(tier, seed, 4000, 60000)
 
 
 def run_shard(desc):
